@@ -73,7 +73,7 @@ def run(tier):
     dstates += pv.distinct
     drv = vlib.build_harness()
     texel = vlib.build_texel_binary()
-    n = 40 if tier == "quick" else 400
+    n = 40 if tier == "quick" else 1500
     npaths = 24 if tier == "quick" else 300
     sd = vlib.seed()
     d = vlib.scratch("c13")
